@@ -14,6 +14,7 @@ import (
 	"golang.org/x/tools/go/packages"
 	"golang.org/x/tools/go/types/typeutil"
 
+	"verif/internal/ceval"
 	"verif/internal/load"
 	"verif/internal/paths"
 	"verif/internal/report"
@@ -94,6 +95,7 @@ func OrderDomainIn(p *load.Program, rel string) *report.RuleResult {
 	}
 	methods := load.Methods(pk, "Version")
 	in := newInterp(pk)
+	var cev *ceval.Interp
 	const big = ^uint64(0)
 	small3 := []uint64{1, 2, 3}
 	var grid3 []ver
@@ -240,8 +242,24 @@ func OrderDomainIn(p *load.Program, rel string) *report.RuleResult {
 				v := ver{ma, mi}
 				r, err := in.Call(fd, mkVer(v), nil)
 				if err != nil {
-					bad = "undecided:idiom: " + err.Error()
-					break vloop
+					// outside the small interpreter's vocabulary (a table of ranges and a loop): the general evaluator,
+					// whose integers are signed 64-bit, for the values that fit
+					if ma >= 1<<62 || mi >= 1<<62 {
+						continue
+					}
+					if cev == nil {
+						cev = ceval.New(pk)
+					}
+					out, st, why := cev.Call(fd, &ceval.Struct{Type: "Version", Fields: map[string]interface{}{"Major": int64(ma), "Minor": int64(mi)}}, nil)
+					if st != ceval.OK || len(out) != 1 {
+						bad = "undecided:idiom: " + err.Error() + "; general evaluator: " + why
+						break vloop
+					}
+					if _, ok := out[0].(ceval.Nil); ok {
+						r = []value{nilVal{}}
+					} else {
+						r = []value{&structVal{}}
+					}
 				}
 				_, isNil := r[0].(nilVal)
 				if isNil != inOracle(v) {
